@@ -366,6 +366,28 @@ def run_chunking(ctx, t, enc, rng, apis):
                         ctx.violation('chunking.incdec', case, {'got': got, 'expected': exp_dec, 'chunks': chunks})
                 except Exception as e:
                     ctx.violation('chunking.incdec', case, {'tb': core.short_tb(e)}, site=core.raise_site(e))
+            if 'incdec' in apis and len(chunks) <= 8:
+                # the schedule as an I/O loop delivers it: one buffer of the caller refilled for every chunk (whatever the decoder keeps
+                # must be its own copy), and reads that return nothing in between
+                ctx.count('evaluations')
+                ctx.count('oracle.chunking')
+                ctx.count('oracle.chunking.reused-buffer')
+                case = {'kind': 'chunk', 'api': 'incdec-reused-buffer', 'text': t, 'enc': enc, 'given': given, 'cuts': list(cuts)}
+                try:
+                    dec = codecs.getincrementaldecoder('css')(encoding=given)
+                    buf = bytearray()
+                    parts = []
+                    for i, ch in enumerate(chunks):
+                        if i % 2:
+                            parts.append(dec.decode(b'', False))
+                        buf[:] = ch
+                        parts.append(dec.decode(buf, i == len(chunks) - 1))
+                        buf[:] = b'\x00' * len(buf)
+                    got = join_any(parts, '')
+                    if got != exp_dec:
+                        ctx.violation('chunking.incdec', case, {'got': got, 'expected': exp_dec, 'chunks': chunks})
+                except Exception as e:
+                    ctx.violation('chunking.incdec', case, {'tb': core.short_tb(e)}, site=core.raise_site(e))
             if 'iterdecode' in apis and len(chunks) <= 6 and given is None:
                 ctx.count('evaluations')
                 ctx.count('oracle.chunking')
@@ -409,7 +431,8 @@ def run_chunking(ctx, t, enc, rng, apis):
                 case = {'kind': 'chunk', 'api': 'incenc', 'text': t, 'enc': enc, 'given': given, 'cuts': list(cuts)}
                 try:
                     en = codecs.getincrementalencoder('css')(encoding=given)
-                    got = join_any([en.encode(ch, i == len(chunks) - 1) for i, ch in enumerate(chunks)], b'')
+                    pre = [en.encode('', False)] if len(cuts) % 2 else []
+                    got = join_any(pre + [en.encode(ch, i == len(chunks) - 1) for i, ch in enumerate(chunks)], b'')
                     if got != exp_enc:
                         ctx.violation('chunking.incenc', case, {'got': got, 'expected': exp_enc})
                 except Exception as e:
@@ -434,8 +457,16 @@ def run_chunking(ctx, t, enc, rng, apis):
                 try:
                     st = io.BytesIO()
                     wr = codecs.getwriter('css')(st, encoding=given)
+                    # (a write of nothing - before the first characters, between chunks - is part of many schedules)
+                    empties = len(cuts) % 3
+                    if empties == 1:
+                        wr.write('')
+                    elif empties == 2:
+                        wr.writelines([])
                     for ch in chunks:
                         wr.write(ch)
+                        if empties == 2:
+                            wr.write('')
                     wr.flush()
                     got = st.getvalue()
                     if got != exp_enc:
